@@ -209,7 +209,7 @@ def shape_ok(case, res):
 
 
 def ckslot(case, res, qi, j):
-    int_labels = case["label_kind"] == "int"
+    int_labels = case["label_kind"] in ("int", "bigint")
     d = core.copt(c16.cext(res["distances"][qi][j])) if "distances" in res else "None"
     dtn = core.copt(c16.cext(res["dist_to_nuns"][qi][j][0])) if "dist_to_nuns" in res else "None"
     ix = core.copt(c16.czidx(res["indices"][qi][j])) if "indices" in res else "None"
@@ -234,7 +234,7 @@ def ckqueries(case, res):
                 return None
         nidx = core.copt(c16.czidx([int(v) for v in res["nuns_indices"][qi][0]])) if "nuns_indices" in res else "None"
         ncase = core.copt(c16.cvec_opt(res["nuns"][qi][0])) if "nuns" in res else "None"
-        nlab = core.copt(c16.cvec_opt(res["nuns_labels"][qi][0], case["label_kind"] == "int")) if "nuns_labels" in res else "None"
+        nlab = core.copt(c16.cvec_opt(res["nuns_labels"][qi][0], case["label_kind"] in ("int", "bigint"))) if "nuns_labels" in res else "None"
         out.append("{| kq_slots := %s; kq_nidx := %s; kq_ncase := %s; kq_nlabel := %s |}" % (slots, nidx, ncase, nlab))
     return core.cl(out)
 
